@@ -164,6 +164,11 @@ def _interpret(R, f):
         for fl in adt["variants"][0]["fields"]:
             if STRINGY.search(fl["ty"]):
                 carries.append(fl["name"])
+            else:
+                # a private newtype around the buffer (`struct PendingLine(Vec<u8>)`): its methods are inlined, the bytes live in field 0
+                a2 = R.prog.adts.get(fl["ty"])
+                if a2 and len(a2["variants"]) == 1 and len(a2["variants"][0]["fields"]) == 1 and STRINGY.search(a2["variants"][0]["fields"][0]["ty"]):
+                    carries.append(fl["name"])
     if not carries:
         raise Violation("next|no-carry", "FollowFileIterator has no String/Vec<u8> carry-over field: a partial line cannot survive a retry", header)
     init = State()
